@@ -1,8 +1,8 @@
 #!/bin/sh
-# Regression sweep over the seeded changes of the later waves (g i j k l m n): quick tier (generated tiers only) of the
+# Regression sweep over the seeded changes of the later waves (g i j k l m n o p): quick tier (generated tiers only) of the
 # change's own property; the ones listed in their meta.json as reported by a neighbour show rc=0 here.
 cd /verif
-for w in g i j k l m n; do
+for w in g i j k l m n o p; do
   for d in seeded/*-$w/; do
     n=$(basename $d); id=${n%%-*}
     python3 tools/mutate.py --no-corpus patch $d/patch.diff $id 2>&1 | cut -c1-300
